@@ -145,9 +145,15 @@ def gen_obj_history(rng, max_ops=9):
             W, H = g.ncols, len(g.rows)
             ops.append({"op": "read", "read": rng.choice(OBJ_READS), "x": rng.randrange(-W, W + 2) if W else rng.randrange(2),
                         "y": rng.randrange(-H, H + 2) if H else rng.randrange(2), "clone": rng.random() < 0.5})
-        op = T.gen_op(rng, g)
-        while op["op"] == "set_column_values":
+        r = rng.random()
+        if r < 0.07:
+            op = {"op": "rstrip", "aggr": rng.random() < 0.5}
+        elif r < 0.12:
+            op = {"op": "transpose"}
+        else:
             op = T.gen_op(rng, g)
+            while op["op"] == "set_column_values":
+                op = T.gen_op(rng, g)
         ops.append(op)
         T.ref_apply(g, op)
         if g.rows and g.ncols == 0:
@@ -156,6 +162,10 @@ def gen_obj_history(rng, max_ops=9):
 
 
 def obj_line(op):
+    if op["op"] == "rstrip":
+        return f"otb op rstrip {1 if op['aggr'] else 0}"
+    if op["op"] == "transpose":
+        return "otb op transpose"
     if op["op"] != "read":
         return "otb" + T.op_line(op)[3:]
     r = op["read"]
@@ -419,7 +429,7 @@ def run(chk: core.Check) -> None:
         "clone True/False) before most mutations; after every mutation the live object, the fresh parse of its serialisation and an independent "
         "lxml expansion are compared on size, matrix, random cells (in / edge / beyond / negative), a row and its width, a column, traverse with "
         "styles; save + reload of a document every third step (thorough: every step). non-trivial as in C01; distinct by (encoding, op prefix). "
-        "object layer: histories of the 15 proved mutators with 0-3 reads (get_value / get_cell / get_row / get_row_values, in / edge / beyond / "
+        "object layer: histories of the 17 proved mutators (rstrip and transpose included) with 0-3 reads (get_value / get_cell / get_row / get_row_values, in / edge / beyond / "
         "negative) before each, on tables parsed from XML; after EVERY step the live table's cache of Row wrappers (keys, each wrapper's own _rmap, "
         "its cached cells) is compared with OdfModel/TableObj.lean, every cached wrapper must hold the element at its key, and every answer is "
         "compared with the model and with a fresh parse; non-trivial there = the wrapper cache is non-empty after the step. wide alphabet: histories "
